@@ -740,3 +740,67 @@ def truth3(t, zero_names):
     return None if z is None else not z
 
 
+
+
+# ---------------------------------------------------------------- views read their parent only through their selection
+PER_ROW_ATTRS = ("plate_ids", "sample_ids", "treatment_ids", "sample_names", "treatment_names", "treatment_doses", "observations", "observation_mask",
+                 "single_treatment_effects", "plate_names")
+SCREEN_WIDE_ATTRS = ("control_treatment_name", "treatment_mapping", "sample_mapping", "plate_mapping", "treatment_arity", "treatment_space_size",
+                     "sample_space_size", "n_unique_treatments", "n_unique_samples")
+
+
+VIEW_EXEMPT = {"batchie.data.Plate.merge": "documented mutator of the parent: relabels the merged rows and re-encodes the parent's plate ids from all plate names"}
+
+
+def view_discipline(ctx, rule):
+    """A ScreenSubset / Plate is `parent + boolean selection`.  Whatever a view reports about experiments must be the parent's value at the
+    selected rows: every read `self.screen.<per-experiment attribute>` in the view classes is subscripted by the view's selection on the
+    spot (or only tested for None), and no method of the view hands the question on to the parent (`self.screen.m(..)` computes over all of
+    the parent's rows - masked and foreign ones included).  Screen-wide attributes (mappings, control name, arity, space sizes) are shared."""
+    R = ctx.R
+    n = 0
+    for cq in ("batchie.data.ScreenSubset", "batchie.data.Plate"):
+        if cq not in R.classes:
+            continue
+        for q, f in sorted(R.funcs.items()):
+            if f.class_q != cq or f.name == "__init__" or q in VIEW_EXEMPT:
+                continue
+            par = enclosing_map(f.node)
+            env = single_defs(f.node)
+            sel_names = {"self.selection_vector"} | {k for k, v in env.items() if U(v) == "self.selection_vector"}
+            problems = []
+            for x in ast.walk(f.node):
+                if not (isinstance(x, ast.Attribute) and isinstance(x.ctx, ast.Load) and U(x.value) == "self.screen"):
+                    continue
+                n += 1
+                p = par.get(x)
+                if isinstance(p, ast.Call) and p.func is x:
+                    problems.append(f"`{U(p)[:60]}` asks the parent screen: the answer is computed from all of the parent's rows, not from the view's")
+                    continue
+                if x.attr in SCREEN_WIDE_ATTRS or x.attr.startswith("__"):
+                    continue
+                if x.attr not in PER_ROW_ATTRS:
+                    raise AnalysisError(f"{f.site()}: `self.screen.{x.attr}` is neither a known per-experiment nor a known screen-wide attribute")
+                # per-experiment: subscripted by the selection on the spot, through a local alias bound to it, or only compared with None
+                if isinstance(p, ast.Subscript) and p.value is x and (U(p.slice) in sel_names or (isinstance(p.slice, ast.Tuple) and p.slice.elts and U(p.slice.elts[0]) in sel_names)):
+                    continue
+                if isinstance(p, ast.Compare) and len(p.ops) == 1 and isinstance(p.ops[0], (ast.Is, ast.IsNot)) and U(p.comparators[0]) == "None":
+                    continue
+                if isinstance(p, ast.Assign) and len(p.targets) == 1 and isinstance(p.targets[0], ast.Name):
+                    # alias = self.screen.attr: every read of the alias must be selected / None-tested
+                    al = p.targets[0].id
+                    uses = [y for y in ast.walk(f.node) if isinstance(y, ast.Name) and y.id == al and isinstance(y.ctx, ast.Load)]
+                    good = True
+                    for y in uses:
+                        py = par.get(y)
+                        if isinstance(py, ast.Subscript) and py.value is y and U(py.slice) in sel_names:
+                            continue
+                        if isinstance(py, ast.Compare) and len(py.ops) == 1 and isinstance(py.ops[0], (ast.Is, ast.IsNot)) and U(py.comparators[0]) == "None":
+                            continue
+                        good = False
+                    if good and uses:
+                        continue
+                problems.append(f"`self.screen.{x.attr}` is read without the view's selection")
+            ctx.check(rule, f"{f.site()}::reads-parent-through-selection", not problems, "the parent's per-experiment data is read at the selected rows only",
+                      "; ".join(problems[:3]) + ": values of experiments outside the view (masked, or of other plates) reach whoever uses the view")
+    ctx.need(n >= 15, f"view discipline: only {n} reads of the parent screen found in the view classes")
